@@ -121,7 +121,10 @@ type DiffOpts struct {
 	TargetSig []byte
 	// Again: WritePatch is called a second time on the same DiffContext (a retry on a new writer, the same
 	// diff emitted once more); DiffOut.Patch2/Sig2 and the counters' deltas Fresh2/Reused2 describe that call.
-	Again       bool
+	Again bool
+	// UsedBefore: the DiffContext is not new: it has just written a patch for another pair (the new build
+	// against ITSELF as the old build), then its exported target fields are set to the real old build
+	UsedBefore  bool
 	WrapPool    func(lake.Pool) lake.Pool
 	PatchWriter func(io.Writer) io.Writer
 	SigWriter   func(io.Writer) io.Writer
@@ -171,6 +174,18 @@ func Diff(oldDir, newDir string, comp Comp, opts *DiffOpts) (*DiffOut, error) {
 	}
 	if opts != nil && opts.SigWriter != nil {
 		sw = opts.SigWriter(sb)
+	}
+	if opts != nil && opts.UsedBefore {
+		sc2, sh2, err := Sign(newDir)
+		if err != nil {
+			return nil, fmt.Errorf("sign new: %w", err)
+		}
+		dctx.TargetContainer, dctx.TargetSignature = sc2, sh2
+		if err := dctx.WritePatch(context.Background(), io.Discard, io.Discard); err != nil {
+			return nil, fmt.Errorf("WritePatch (earlier use of the context, new build against itself): %w", err)
+		}
+		dctx.TargetContainer, dctx.TargetSignature = tc, th
+		dctx.FreshBytes, dctx.ReusedBytes = 0, 0
 	}
 	if err := dctx.WritePatch(context.Background(), pw, sw); err != nil {
 		return nil, fmt.Errorf("WritePatch: %w", err)
